@@ -308,6 +308,59 @@ theorem search_sound_complete (L : Laws e fold) {s : St Id} (hinv : Inv e s) (hu
   cases hid'
   exact hrun
 
+/-- A lookup never resolves to a slot that was removed from the index (detached) and not added again — although
+RemoveFromUHash leaves the slot's bytes in `Userid`, so that "read the slot back and compare" still succeeds.
+No uniqueness assumption. -/
+theorem search_never_detached (L : Laws e fold) {D : List Nat} {s : St Id} (hinv : InvD e D s) (q : Id) {u : Int}
+    {r : Option Id} (hres : searchUserRaw e s q = .ok (u, r)) : ∀ k : Nat, k ∈ D → u ≠ (k : Int) + 1 := by
+  obtain ⟨ch, hwf, hfree, _⟩ := hinv
+  intro k hk hu
+  unfold searchUserRaw at hres
+  split at hres
+  · simp at hres; omega
+  · rename_i hq
+    rw [doSearch_spec L.hash_lt hwf q] at hres
+    cases hfo : findOn e s q (ch (e.hash q)) with
+    | none => simp [hfo, searchResult] at hres; omega
+    | some p =>
+      obtain ⟨k', id'⟩ := p
+      obtain ⟨h1, _, _⟩ := findOn_some hfo
+      simp [hfo, searchResult] at hres
+      have : k' = k := by omega
+      subst this
+      exact hfree k' hk _ (L.hash_lt q) h1
+
+/-- Lookup – remove – lookup: slot `k` holds `id` (non-empty, no other slot holds it in any letter case).  Before the
+removal every spelling `q` of the id resolves to `k+1`; after RemoveFromUHash(k) the same query answers none — while
+`Userid[k]` STILL holds `id` (so a lookup may not be short-cut by re-reading the slot it resolved to last time). -/
+theorem lookup_remove_lookup (L : Laws e fold) {s : St Id} (hinv : Inv e s) (huniq : UniqueFold e fold s) {k : Nat}
+    (hk : k < e.MAX) {id : Id} (hid : s.userid[k]? = some id) (hne : e.isEmpty id = false) (q : Id)
+    (hf : fold id = fold q) :
+    searchUserRaw e s q = .ok ((k : Int) + 1, some id) ∧
+    ∃ s', removeFromUHash e s (k : Int) = .ok (s', .ok) ∧ s'.userid[k]? = some id ∧
+      searchUserRaw e s' q = .ok (0, none) := by
+  have hq : e.isEmpty q = false := by rw [← L.isEmpty_fold id q hf]; exact hne
+  refine ⟨(search_sound_complete L hinv huniq q).2.1 hq k id hid hf, ?_⟩
+  obtain ⟨s', hrun, hinv', hu, _⟩ := inv_remove L hinv hk
+  refine ⟨s', hrun, by rw [hu]; exact hid, ?_⟩
+  cases hres : searchUserRaw e s' q with
+  | error x =>
+    -- lookups do not fault under the invariant
+    obtain ⟨ch, hwf, _, _⟩ := hinv'
+    unfold searchUserRaw at hres
+    simp only [hq, Bool.false_eq_true, if_false, doSearch_spec L.hash_lt hwf q] at hres
+    cases hres
+  | ok p =>
+    obtain ⟨u, r⟩ := p
+    rcases search_sound L hinv' q hres with ⟨h0, hr⟩ | ⟨k', id', hu', _, hid', hf', _⟩
+    · rw [h0, hr]
+    · exfalso
+      rw [hu] at hid'
+      have hne' : e.isEmpty id' = false := by rw [L.isEmpty_fold id' q hf']; exact hq
+      have hkk : k' = k := huniq k' k id' id hid' hid hne' (by rw [hf', hf])
+      subst hkk
+      exact search_never_detached L hinv' q hres k' List.mem_cons_self hu'
+
 /-- GetUserID returns the table entry of an in-range uid and ErrInvalidUID otherwise (no fault). -/
 theorem getUserID_spec {s : St Id} (hs : Shape e s) (uid : Int) :
     (uid ≤ 0 ∨ uid > (e.MAX : Int) → getUserID e s uid = .ok none) ∧
@@ -499,6 +552,39 @@ example : ∃ s', loadUHash toyEnv toySt (some ([11, 22, 33, 0], false)) = .ok (
   rw [this] at hrun
   cases hrun
   rfl
+
+/-! ### witness for a broken rule: a per-process "last hit" memo in front of the chain walk
+
+`searchMemo` is SearchUserRaw with the shortcut of seeded change C04-r3-1: the last id that resolved and its uid are
+remembered; a following query of the same id (case-insensitively) is answered from the memo after re-reading
+`Userid[uid-1]` and comparing it with the query.  The re-validation survives a removal, because RemoveFromUHash leaves
+the bytes in place. -/
+
+def searchMemo {Id' : Type} (e : Env Id') (memo : Option (Id' × Int)) (s : St Id') (q : Id') : M ((Int × Option Id') × Option (Id' × Int)) :=
+  if e.isEmpty q then pure ((0, none), memo) else do
+    let fromMemo : Option (Int × Id') :=
+      match memo with
+      | some (mid, uid) =>
+        if 1 ≤ uid ∧ uid ≤ (e.MAX : Int) ∧ e.ceq q mid then
+          match s.userid[(uid - 1).toNat]? with
+          | some cur => if e.ceq q cur then some (uid, cur) else none
+          | none => none
+        else none
+      | none => none
+    match fromMemo with
+    | some (uid, cur) => pure ((uid, some cur), memo)
+    | none => do
+      let r ← doSearchUserRaw e s q
+      pure (r, if r.1 ≠ 0 then some (q, r.1) else memo)
+
+/-- with the memo, "lookup 22 — remove its slot — lookup 22" answers slot 2 for an id that is absent from the index;
+the real SearchUserRaw (and DoSearchUserRaw) answer none -/
+theorem memo_breaks_lookup_after_remove :
+    ∃ m1 s', searchMemo toyEnv none toySt 22 = .ok ((2, some 22), m1) ∧
+      removeFromUHash toyEnv toySt 1 = .ok (s', .ok) ∧
+      searchMemo toyEnv m1 s' 22 = .ok ((2, some 22), m1) ∧
+      searchUserRaw toyEnv s' 22 = .ok (0, none) ∧ doSearchUserRaw toyEnv s' 22 = .ok (0, none) :=
+  ⟨some (22, 2), { toySt with next := [2, 2, -1, 7] }, by rfl, by rfl, by rfl, by rfl, by rfl⟩
 
 /-- `Reach` is inhabited beyond the cold load: cold load of three colliding records, a rename, a bare remove -/
 example : ∃ s, Reach toyEnv s [0] ∧ s.userid = [11, 55, 33, 0] := by
